@@ -484,7 +484,8 @@ def expand_fn(fs, assumed_override=False, notes=None):
             if it[0] == 'off':
                 edits.append((it[1], it[2]))
             else:
-                edits.append((1, it[2]))   # right after the opening '{'
+                # right after the opening '{' (and after the R2 prologue if there is one)
+                edits.append((len('{ let mut this = self;') if 'R2' in fs.rules else 1, it[2]))
         edits.sort(key=lambda e: e[0], reverse=True)
         for off, txt in edits:
             body = body[:off] + txt + body[off:]
